@@ -110,3 +110,49 @@ Definition check_case (k : case) : bool * bool :=
     && forallb (fun ps => split_ok (fst ps) (snd ps))
          (List.combine [r_src_ports r; r_dst_ports r; r_not_src_ports r; r_not_dst_ports r] (k_impl_splits k))
     && Nat.eqb (length (k_impl_splits k)) 4 ).
+
+(* ------------------------------------------------------------------ known-finding classification *)
+(* A failing case counts as the known defect "scratch-bit-third-positive-block" only if ALL of:
+   - the tree was probed as the unfixed variant (c_fixed = false in the case);
+   - the unfixed MODEL equals the implementation's rule list (so it predicts the implementation's outcome
+     on every packet exactly);
+   - the (version-filtered) rule has at least three positive match blocks;
+   - every packet on which the oracle fails is one the reference says does NOT match, on which the
+     implementation nevertheless took the rule's action, which fails a third-or-later positive block, and
+     on which the FIXED model gives the outcome the oracle demands;
+   - the SplitPortList part of the oracle holds.
+   Anything else stays a violation. *)
+Definition set_fixed (c : cfg) (b : bool) : cfg :=
+  {| c_flavor := c_flavor c; c_accept := c_accept c; c_pass := c_pass c; c_drop := c_drop c;
+     c_scratch0 := c_scratch0 c; c_scratch1 := c_scratch1 c; c_flowlogs := c_flowlogs c;
+     c_untracked := c_untracked c; c_deny := c_deny c; c_log_limit := c_log_limit c; c_fixed := b |}.
+
+Definition later_block_fails (e : env) (p : packet) (blocks : list (list (list pmatch))) : bool :=
+  negb (forallb (fun alts => existsb (matches e p) alts) (skipn 2 blocks)).
+
+Definition scratch_class_packet (c : cfg) (e : env) (r r' : rule) (impl : list irule) (p : packet) : bool :=
+  negb (rule_matches (e_sets e) r p)
+  && took_action c (r_action r) (pk_mark p) (run_flat e impl p)
+  && later_block_fails e p (pos_blocks r')
+  && ok_outcome (set_fixed c true) (e_sets e) r p
+       (run_flat e (render_rule (set_fixed c true) (pk_ver p) r) p).
+
+(* second component is always false so that the evaluation lists every case it is run on *)
+Definition classify_case (k : case) : bool * bool :=
+  let c := k_cfg k in
+  let r := k_rule k in
+  let e := case_env k in
+  match filter_rule (k_ver k) r with
+  | None => (false, false)
+  | Some r' =>
+    ( negb (c_fixed c)
+      && rules_eqb (render_rule c (k_ver k) r) (k_impl k)
+      && Nat.leb 3 (length (pos_blocks r'))
+      && forallb (fun p => negb (entry_ok c (r_action r) p && ipver_eqb (pk_ver p) (k_ver k))
+                           || ok_outcome c (e_sets e) r p (run_flat e (k_impl k) p)
+                           || scratch_class_packet c e r r' (k_impl k) p) (k_packets k)
+      && forallb (fun ps => split_ok (fst ps) (snd ps))
+           (List.combine [r_src_ports r; r_dst_ports r; r_not_src_ports r; r_not_dst_ports r] (k_impl_splits k))
+      && Nat.eqb (length (k_impl_splits k)) 4,
+      false)
+  end.
